@@ -41,4 +41,5 @@ def main(tier, seed, replay):
     k.selftest(tr)
     return k.finish(assumptions=[
         "a lost connection is both ends dropping at once with everything in flight lost; the game despawns the replicated entities of the ended session (the harness does); the client runs at least one frame before it reconnects; a restarted server runs one frame before it accepts clients; the running flag changes at most once per server frame (replicon detects a stop by comparing with the previous frame)",
+        "message buffers (spec/Buffers.tla): the public calls of RepliconClient / RepliconServer arrive in any order; a backend writes connection statistics (stats_mut) only while the client is connected; 3 channels, 2 client entities, payloads distinguishable by a running number",
         "panics of either app are observed under catch_unwind and reported by the panic monitor (attributed to C01 and C09)"])
